@@ -53,6 +53,12 @@ def run(ctx):
             rem = [s_ for s_ in evs if s_.kind == 'store' and s_.rhs is not None and s_.rhs.k == 'bin' and s_.rhs.op == '%' and s_.rhs.ch[1].s.endswith('lmt')]
             quo = [s_ for s_ in evs if s_.kind == 'store' and s_.rhs is not None and s_.rhs.k == 'bin' and s_.rhs.op == '/' and s_.rhs.ch[1].s.endswith('lmt')
                    and any(r.rhs.ch[0].s == s_.rhs.ch[0].s for r in rem)]
+            if not rem and fname in DECODERS:
+                # a known decoder that no longer splits the key by lmt (the radix of the encoder): not a vanished anchor, a wrong radix
+                anyrem = [s_ for s_ in evs if s_.kind == 'store' and s_.rhs is not None and s_.rhs.k == 'bin' and s_.rhs.op in ('%', '/')]
+                ctx.functions_analysed.add(fname)
+                ra.bad('decode:%s' % fname, anyrem[0].loc if anyrem else f.where(),
+                       '%s must split the key into remainder (row) and quotient (column) by lmt, the radix tiled_matrix_data_key encodes with (found %s)' % (fname, ', '.join(x.rhs.s for x in anyrem[:2]) or 'no split'))
             if rem:
                 ctx.functions_analysed.add(fname)
                 ok = len(rem) == 1 and len(quo) == 1 and rem[0].rhs.ch[1].s == quo[0].rhs.ch[1].s
